@@ -12,7 +12,12 @@
 //     encoder / AddressFromMultiPubKeys and, hand-assembled, by the parser;
 //   - random and mutated byte strings never panic the parser and whatever it accepts has
 //     1 <= M <= len(PubKeys) <= 16 (single: exactly one key, multi: at least two) and, when
-//     the script tokenizes, len(PubKeys) equals the key count declared in the script.
+//     the script tokenizes, len(PubKeys) equals the key count declared in the script;
+//   - a script returned by the encoder is still the same bytes after later scripts were built;
+//   - operands.go: threshold and key count pushed in every operand form (opcodes, PUSHBYTES,
+//     PUSHDATA1/2/4, 0..9 bytes) with honest, wrapped, negative, padded and byte-reversed
+//     values: a script is acceptable only when the VM-integer values of both operands are a
+//     valid (m, n) and n is the number of keys; accepted scripts report exactly (m, keys).
 package main
 
 import (
@@ -23,7 +28,6 @@ import (
 	"sort"
 	"strings"
 	"sync"
-	"time"
 
 	"github.com/ontio/ontology-crypto/ec"
 	"github.com/ontio/ontology-crypto/keypair"
@@ -320,7 +324,20 @@ func multiCase(rng *vf.RNG, keys []*txgen.Key) {
 	}
 	addrOfM := map[common.Address]int{}
 	var addr1 common.Address
-	for m := 1; m <= n; m++ {
+	// a script handed out earlier stays what it was while later scripts are built
+	var held, heldCopy []byte
+	heldM := 0
+	for m := 1; m <= n+1; m++ {
+		if held != nil {
+			r.Count("held_script_rechecked")
+			if !bytes.Equal(held, heldCopy) {
+				r.Violation("multi:returned-script-changed-later", "a script returned by ProgramFromMultiPubKey changed after later scripts were built",
+					map[string]interface{}{"keys": hexKeys(keys), "m": heldM, "script_when_returned": vf.Hex(heldCopy), "script_now": vf.Hex(held), "built_since": "the scripts of the same keys in other orders and for the next threshold"})
+			}
+		}
+		if m > n {
+			break
+		}
 		r.Eval(fmt.Sprintf("multi/%s/%d", sid, m))
 		var prog0 []byte
 		var addr0 common.Address
@@ -378,6 +395,7 @@ func multiCase(rng *vf.RNG, keys []*txgen.Key) {
 			}
 			if pi == 0 {
 				prog0, addr0 = prog, addr
+				held, heldCopy, heldM = prog, append([]byte(nil), prog...), m
 				want := assemble(m, rawKeys(sorted), n, true)
 				if bytes.Equal(want, prog) {
 					r.Count("assembler_matches_encoder")
@@ -602,15 +620,18 @@ func checkAccepted(script []byte, info program.ProgramInfo, fam string) {
 		}
 		if toks, ok := tokenize(script[:len(script)-1]); ok && len(toks) >= 2 {
 			last := toks[len(toks)-1]
-			decl := -1
+			// byte strings: either byte order of a 1..2 byte count is let through here; the
+			// operand family (operands.go) holds data pushes to their VM-integer value
+			decl, declVM := -1, -1
 			if last.num >= 0 {
-				decl = last.num
+				decl, declVM = last.num, last.num
 			} else if last.data != nil && len(last.data) <= 2 {
 				decl = int(new(big.Int).SetBytes(last.data).Int64())
+				declVM = int(neoInt(last.data).Int64())
 			}
 			if decl >= 0 {
 				r.Count("bytes_accepted_declared_n_checked")
-				if decl != n {
+				if decl != n && declVM != n {
 					wit["declared_n"] = decl
 					r.Violation("accepted:declared-n-mismatch", "len(PubKeys) differs from the key count declared in the script", wit)
 				}
@@ -790,7 +811,7 @@ func min(a, b int) int {
 
 func main() {
 	r = vf.NewRun("C23", "exploration",
-		"key sets of size 1..16 drawn from a 7x32 pool of deterministic keys (ECDSA P-224/256/384/521, SM2, Ed25519, Ethereum secp256k1; mixed or single-kind), every threshold 1..n, identity/reverse/2 random orderings; invalid (n,m) through encoder and hand-assembled scripts through parser; random, mutated and alternatively-encoded scripts as byte strings; distinct by (key set, m) / script bytes")
+		"key sets of size 1..16 drawn from a 7x32 pool of deterministic keys (ECDSA P-224/256/384/521, SM2, Ed25519, Ethereum secp256k1; mixed or single-kind), every threshold 1..n, identity/reverse/2 random orderings; invalid (n,m) through encoder and hand-assembled scripts through parser; random, mutated and alternatively-encoded scripts as byte strings; hand-assembled m-of-n scripts whose threshold / key-count operands take every push form (PUSHM1, PUSH0..16, PUSHBYTES1..9, PUSHDATA1/2/4 with 0..9 bytes) and the values b, b+k*2^8s, b+65536j, negatives, paddings, byte-reversed, 0, K+-1, 17..65537, 2^31..2^64, with 0, 1, 2..16, 17..1025 and (quick: 65537; thorough: 65535..131075) keys; distinct by (key set, m) / script bytes / (key count, operand bytes)")
 	rng := vf.NewRNG(vf.Seed())
 	workers := runtime.NumCPU()
 	for k := txgen.Kind(0); k < txgen.NumKinds; k++ {
@@ -827,9 +848,7 @@ func main() {
 		}
 	})
 
-	t0dbg := time.Now()
 	operandFamily(rng.Sub(4<<40), workers)
-	fmt.Println("DBG operand family", time.Since(t0dbg))
 	operandRequirements()
 
 	for k := txgen.Kind(0); k < txgen.NumKinds; k++ {
@@ -840,6 +859,7 @@ func main() {
 		r.Require(fmt.Sprintf("multi_n=%02d", n), 50)
 	}
 	r.Require("multi_roundtrip_checked", 10000)
+	r.Require("held_script_rechecked", 10000)
 	r.Require("permutation_compared", 10000)
 	r.Require("threshold_distinct_checked", 1000)
 	for _, f := range []string{"replace", "drop", "add"} {
